@@ -1,7 +1,1293 @@
-//! C17 engine (stub)
+//! C17: connection setup. Three phases, in this order (the first two need a single-threaded process):
+//!  1. uids: forked children `setresuid` to boundary uids and run the real `connect_to_bus` against the
+//!     parent's scripted server, which records the AUTH line (`get_uid_as_hex` is private).
+//!  2. addresses: `get_session_bus_path()` under a controlled DBUS_SESSION_BUS_ADDRESS for grammar
+//!     generated addresses and single character mutations of them; independent oracle parser.
+//!  3. handshakes: `DuplexConn::connect_to_bus` against an in-process abstract-socket listener and
+//!     `auth::{do_auth, negotiate_unix_fds, send_begin}` on a `UnixStream::pair()`, the server side being a
+//!     scripted thread (reply classes, chunkings, close after k bytes, reset, pipelining); watchdog.
+use rustbus::auth;
+use rustbus::connection::ll_conn::DuplexConn;
+use rustbus::connection::{get_session_bus_path, get_system_bus_path, Error as ConnError, Timeout};
+use rustbus::message_builder::MessageBuilder;
+use std::io::{Read, Write};
+use std::os::linux::net::SocketAddrExt;
+use std::os::unix::ffi::OsStrExt;
+use std::os::unix::io::AsRawFd;
+use std::os::unix::net::{SocketAddr, UnixListener, UnixStream};
+use std::sync::mpsc;
+use std::time::{Duration, Instant};
 use vcore::common::*;
+use vcore::eng_wire::guard;
+use vcore::peer;
+
+const ENV: &str = "DBUS_SESSION_BUS_ADDRESS";
+
+// ---------------------------------------------------------------------------------------------
+// phase 1: uids
+// ---------------------------------------------------------------------------------------------
+
+fn expected_auth_line(uid: u32) -> Vec<u8> {
+    // written from the property text: AUTH EXTERNAL + hex of the ASCII decimal uid, CRLF
+    let mut v = b"AUTH EXTERNAL ".to_vec();
+    for b in uid.to_string().bytes() {
+        v.extend(format!("{:02x}", b).bytes());
+    }
+    v.extend(b"\r\n");
+    v
+}
+
+fn accept_timeout(l: &UnixListener, ms: u64) -> Option<UnixStream> {
+    l.set_nonblocking(true).ok()?;
+    let t0 = Instant::now();
+    loop {
+        match l.accept() {
+            Ok((s, _)) => {
+                s.set_nonblocking(false).ok()?;
+                return Some(s);
+            }
+            Err(_) => {
+                if t0.elapsed() > Duration::from_millis(ms) {
+                    return None;
+                }
+                std::thread::sleep(Duration::from_micros(200));
+            }
+        }
+    }
+}
+
+/// returns (auth line seen by the server, child exit status) or a description of what went wrong
+fn handshake_as_uid(uid: u32) -> Result<(Vec<u8>, i32), String> {
+    let name = peer::fresh_abstract_name();
+    let addr = SocketAddr::from_abstract_name(&name).unwrap();
+    let listener = UnixListener::bind_addr(&addr).map_err(|e| format!("bind: {}", e))?;
+    let pid = unsafe { libc::fork() };
+    if pid < 0 {
+        return Err("fork failed".into());
+    }
+    if pid == 0 {
+        // child: single-threaded, only talks to the socket, leaves with _exit
+        let code = unsafe {
+            if libc::setresuid(uid, uid, uid) != 0 {
+                libc::_exit(3);
+            }
+            if libc::getuid() != uid {
+                libc::_exit(4);
+            }
+            let uaddr = nix::sys::socket::UnixAddr::new_abstract(&name).unwrap();
+            match std::panic::catch_unwind(|| DuplexConn::connect_to_bus(uaddr, false)) {
+                Ok(Ok(_)) => 0,
+                Ok(Err(_)) => 1,
+                Err(_) => 2,
+            }
+        };
+        unsafe { libc::_exit(code) };
+    }
+    let res = (|| -> Result<Vec<u8>, String> {
+        let mut s = accept_timeout(&listener, 2000).ok_or("child never connected")?;
+        s.set_read_timeout(Some(Duration::from_millis(2000))).unwrap();
+        let mut nul = [0u8; 1];
+        s.read_exact(&mut nul).map_err(|e| format!("nul: {}", e))?;
+        if nul[0] != 0 {
+            return Err(format!("first byte {}", nul[0]));
+        }
+        let line = peer::read_line(&mut s).map_err(|e| format!("auth line: {}", e))?;
+        s.write_all(b"OK 1234\r\n").map_err(|e| e.to_string())?;
+        let b = peer::read_line(&mut s).map_err(|e| format!("begin: {}", e))?;
+        if b != b"BEGIN\r\n" {
+            return Err(format!("expected BEGIN, got {}", hex(&b)));
+        }
+        Ok(line)
+    })();
+    let mut status: i32 = 0;
+    unsafe { libc::waitpid(pid, &mut status, 0) };
+    let code = if libc::WIFEXITED(status) { libc::WEXITSTATUS(status) } else { 100 + libc::WTERMSIG(status) };
+    res.map(|l| (l, code))
+}
+
+fn uid_phase(out: &mut Out, rng: &mut Prng, cfg: &Cfg) {
+    let am_root = unsafe { libc::geteuid() } == 0;
+    let mut uids: Vec<u32> = if am_root {
+        vec![0, 9, 10, 99, 100, 1000, 65534, 0x7fff_ffff, 0xffff_fffe, 1, 19, 101, 999, 10000, 99999, 100000, 999_999_999, 1_000_000_000, 4_000_000_000, 4_294_967_290]
+    } else {
+        out.hit("uid_not_root_only_current_uid");
+        vec![unsafe { libc::getuid() }]
+    };
+    if am_root {
+        let n = if cfg.thorough { 300 } else { 30 };
+        for _ in 0..n {
+            // uniform over the number of digits
+            let digits = rng.range(1, 10);
+            let hi: u64 = 10u64.pow(digits as u32).min(0xffff_ffff) - 1;
+            let lo: u64 = if digits == 1 { 0 } else { 10u64.pow(digits as u32 - 1) };
+            uids.push(rng.range(lo, hi.max(lo)) as u32);
+        }
+    }
+    for uid in uids {
+        let req = format!("c17.uid {}", uid);
+        match handshake_as_uid(uid) {
+            Ok((line, code)) => {
+                if line != expected_auth_line(uid) {
+                    out.violation(&req, &format!("uid {} announced as {:?}", uid, String::from_utf8_lossy(&line)));
+                }
+                if code != 0 {
+                    out.violation(&req, &format!("client child for uid {} ended with status {}", uid, code));
+                }
+                out.hit(&format!("uid_digits_{}", uid.to_string().len()));
+                out.case(&req, &format!("auth={}", hex(&line)), true);
+            }
+            Err(e) => {
+                out.violation(&req, &format!("handshake as uid {} did not complete: {}", uid, e));
+                out.case(&req, "failed", true);
+            }
+        }
+    }
+}
+
+// ---------------------------------------------------------------------------------------------
+// phase 2: addresses
+// ---------------------------------------------------------------------------------------------
+
+fn show_addr(r: Result<Result<nix::sys::socket::UnixAddr, ConnError>, String>) -> String {
+    match r {
+        Err(_) => "panic".into(),
+        Ok(Ok(a)) => {
+            if let Some(p) = a.path() {
+                match p.to_str() {
+                    Some(s) => format!("path {}", cps(s)),
+                    None => "path ?".into(),
+                }
+            } else if let Some(n) = a.as_abstract() {
+                match std::str::from_utf8(n) {
+                    Ok(s) => format!("abstract {}", cps(s)),
+                    Err(_) => "abstract ?".into(),
+                }
+            } else {
+                "unnamed".into()
+            }
+        }
+        Ok(Err(ConnError::NoAddressFound)) => "err:noaddr".into(),
+        Ok(Err(ConnError::AddressTypeNotSupported(_))) => "err:unsupported".into(),
+        Ok(Err(ConnError::PathDoesNotExist(p))) => format!("err:missing {}", cps(&p)),
+        Ok(Err(ConnError::IoError(_))) => "err:io".into(),
+        Ok(Err(_)) => "err:other".into(),
+    }
+}
+
+fn exists(v: &str) -> bool {
+    std::path::Path::new(v).exists()
+}
+
+/// independent parser written from the property text (index arithmetic, no split/split_once)
+fn oracle(addr: &str) -> String {
+    let c = match addr.find(':') {
+        Some(c) => c,
+        None => return "err:noaddr".into(),
+    };
+    if &addr[..c] != "unix" {
+        return "err:unsupported".into();
+    }
+    let mut rest = &addr[c + 1..];
+    loop {
+        let (item, more) = match rest.find(',') {
+            Some(i) => (&rest[..i], Some(&rest[i + 1..])),
+            None => (rest, None),
+        };
+        let e = match item.find('=') {
+            Some(e) => e,
+            None => return "err:unsupported".into(),
+        };
+        let (k, v) = (&item[..e], &item[e + 1..]);
+        if k == "path" {
+            return if !exists(v) {
+                format!("err:missing {}", cps(v))
+            } else if v.len() >= 108 {
+                "err:io".into()
+            } else {
+                format!("path {}", cps(v))
+            };
+        }
+        if k == "abstract" {
+            return if v.len() >= 108 { "err:io".into() } else { format!("abstract {}", cps(v)) };
+        }
+        match more {
+            Some(m) => rest = m,
+            None => return "err:unsupported".into(),
+        }
+    }
+}
+
+/// every value the parser could possibly ask the file system about: for each ','-piece of the text after
+/// each ':' every suffix behind an '='. Those that exist are handed to the model as its `exists` input.
+fn existing_values(addr: &str) -> Vec<String> {
+    let mut found: Vec<String> = Vec::new();
+    for (ci, ch) in addr.char_indices() {
+        if ch != ':' {
+            continue;
+        }
+        for piece in addr[ci + 1..].split(',') {
+            for (ei, eq) in piece.char_indices() {
+                if eq == '=' {
+                    let v = &piece[ei + 1..];
+                    if !v.is_empty() && exists(v) && !found.iter().any(|f| f == v) {
+                        found.push(v.to_string());
+                    }
+                }
+            }
+        }
+    }
+    found
+}
+
+fn addr_case(out: &mut Out, addr: &str, tag: &str) {
+    std::env::set_var(ENV, addr);
+    let ex = existing_values(addr);
+    let exs = if ex.is_empty() { "-".to_string() } else { ex.iter().map(|s| cps(s)).collect::<Vec<_>>().join(";") };
+    let req = format!("c17.addr {} {}", cps(addr), exs);
+    let r = guard(get_session_bus_path);
+    if let Err(p) = &r {
+        out.violation(&req, &format!("get_session_bus_path panicked on {:?}: {}", addr, p));
+    }
+    let obs = show_addr(r);
+    let want = oracle(addr);
+    if obs != want {
+        out.violation(&req, &format!("address {:?} resolved to `{}`, the property says `{}`", addr, obs, want));
+    }
+    let kind = obs.split(' ').next().unwrap_or("").to_string();
+    out.hit(&format!("addr_{}", kind));
+    out.hit(tag);
+    out.case(&req, &obs, true);
+}
+
+struct AddrGen {
+    existing: Vec<String>,
+    missing: Vec<String>,
+}
+
+impl AddrGen {
+    fn new(outdir: &str) -> AddrGen {
+        let base = std::fs::canonicalize(outdir).unwrap().join("fs");
+        std::fs::create_dir_all(&base).unwrap();
+        let b = base.to_str().unwrap().to_string();
+        let mut existing = Vec::new();
+        for name in ["a", "sock", "bus-\u{e4}\u{20ac}", "x=y", "c:d", "sp ace"] {
+            let p = format!("{}/{}", b, name);
+            std::fs::write(&p, b"").unwrap();
+            existing.push(p);
+        }
+        // names whose full length is 106, 107, 108 and 130 bytes (UnixAddr::new accepts < 108)
+        for total in [106usize, 107, 108, 130] {
+            if b.len() + 2 < total {
+                let p = format!("{}/{}", b, "L".repeat(total - b.len() - 1));
+                std::fs::write(&p, b"").unwrap();
+                existing.push(p);
+            }
+        }
+        std::fs::create_dir_all(format!("{}/dir", b)).unwrap();
+        existing.push(format!("{}/dir", b));
+        existing.push(b.clone());
+        existing.push("/".into());
+        existing.push(".".into());
+        existing.push("/tmp".into());
+        let missing = vec![
+            format!("{}/nope", b),
+            format!("{}/a/x", b),
+            "/nonexistent/dbus/socket".into(),
+            "".into(),
+            "relative/none".into(),
+            format!("{}/{}", b, "M".repeat(120)),
+        ];
+        AddrGen { existing, missing }
+    }
+
+    fn word(&self, rng: &mut Prng) -> String {
+        let alphabet: Vec<char> = "abcxyzPATH019-_/.\u{e9}\u{4e16}\u{1f600} ".chars().collect();
+        let n = rng.range(0, 6);
+        (0..n).map(|_| *rng.pick(&alphabet)).collect()
+    }
+
+    fn system(&self, rng: &mut Prng) -> String {
+        match rng.below(20) {
+            0..=11 => "unix".into(),
+            12 => "tcp".into(),
+            13 => "launchd".into(),
+            14 => (*rng.pick(&["unixexec", "nonce-tcp", "autolaunch", "Unix", "UNIX", "unix ", " unix", "uni", "unixx", "", "path"])).into(),
+            15 => format!("{}unix", self.word(rng)),
+            _ => self.word(rng),
+        }
+    }
+
+    fn pair(&self, rng: &mut Prng) -> String {
+        let key: String = match rng.below(16) {
+            0..=3 => "path".into(),
+            4..=6 => "abstract".into(),
+            7..=8 => "guid".into(),
+            9 => "runtime".into(),
+            10 => (*rng.pick(&["dir", "tmpdir", "host", "port", "family", "env"])).into(),
+            11 => (*rng.pick(&["", "Path", "PATH", "path ", " path", "pat", "paths", "Abstract", "abstrac", "abstract "])).into(),
+            _ => self.word(rng),
+        };
+        let value: String = match key.as_str() {
+            "path" => match rng.below(10) {
+                0..=4 => rng.pick(&self.existing).clone(),
+                5..=7 => rng.pick(&self.missing).clone(),
+                _ => self.word(rng),
+            },
+            "abstract" => match rng.below(10) {
+                0..=3 => format!("/tmp/dbus-{}", self.word(rng)),
+                4 => "".into(),
+                5 => "n".repeat(*rng.pick(&[106usize, 107, 108, 109, 200])),
+                6 => "\u{e9}".repeat(*rng.pick(&[53usize, 54, 55])),
+                7 => rng.pick(&self.existing).clone(),
+                _ => self.word(rng),
+            },
+            "guid" => format!("{:032x}", (rng.next() as u128) << 64 | rng.next() as u128),
+            "runtime" => "yes".into(),
+            _ => match rng.below(6) {
+                0 => "".into(),
+                1 => "a=b".into(),
+                2 => rng.pick(&self.existing).clone(),
+                _ => self.word(rng),
+            },
+        };
+        if rng.chance(1, 14) {
+            // no '=' at all
+            if rng.chance(1, 2) { key } else { format!("{}{}", key, value.replace('=', "")) }
+        } else {
+            format!("{}={}", key, value)
+        }
+    }
+
+    fn address(&self, rng: &mut Prng) -> String {
+        let sys = self.system(rng);
+        let n = match rng.below(12) {
+            0 => 0,
+            1..=4 => 1,
+            5..=7 => 2,
+            8..=9 => 3,
+            _ => rng.range(4, 7),
+        };
+        let mut pairs: Vec<String> = (0..n).map(|_| self.pair(rng)).collect();
+        if rng.chance(1, 12) {
+            let at = rng.below(pairs.len() as u64 + 1) as usize;
+            pairs.insert(at, "".into()); // leading / trailing / doubled comma
+        }
+        let body = pairs.join(",");
+        if rng.chance(1, 25) {
+            format!("{}{}", sys, body) // no ':'
+        } else if rng.chance(1, 20) {
+            format!("{}:{};tcp:host=localhost,port=1", sys, body) // a second address after ';'
+        } else {
+            format!("{}:{}", sys, body)
+        }
+    }
+
+    fn mutate(&self, rng: &mut Prng, a: &str) -> String {
+        let mut cs: Vec<char> = a.chars().collect();
+        let ins: Vec<char> = ":,=;pux /\u{e9}".chars().collect();
+        match rng.below(3) {
+            0 if !cs.is_empty() => {
+                let i = rng.below(cs.len() as u64) as usize;
+                cs.remove(i);
+            }
+            1 if !cs.is_empty() => {
+                let i = rng.below(cs.len() as u64) as usize;
+                cs[i] = *rng.pick(&ins);
+            }
+            _ => {
+                let i = rng.below(cs.len() as u64 + 1) as usize;
+                cs.insert(i, *rng.pick(&ins));
+            }
+        }
+        cs.into_iter().collect()
+    }
+}
+
+fn addr_phase(out: &mut Out, rng: &mut Prng, cfg: &Cfg) {
+    let g = AddrGen::new(&cfg.outdir);
+    // unset / not unicode
+    std::env::remove_var(ENV);
+    let r = guard(get_session_bus_path);
+    let obs = show_addr(r);
+    if obs != "err:noaddr" {
+        out.violation("c17.addr ~ -", &format!("unset variable gave `{}`", obs));
+    }
+    out.case("c17.addr ~ -", &obs, true);
+    std::env::set_var(ENV, std::ffi::OsStr::from_bytes(b"unix:path=/\xff"));
+    let obs = show_addr(guard(get_session_bus_path));
+    if obs != "err:noaddr" {
+        out.violation("c17.addr ~ -", &format!("non-unicode variable gave `{}`", obs));
+    }
+    out.case("c17.addr ~ -", &obs, true);
+    // the strings of the library's own test and a few fixed ones
+    let mut fixed: Vec<String> = vec![
+        "unix:path=/tmp/dbus-test-not-exist".into(),
+        "unix:path=/tmp/dbus-test-not-exist,guid=aaaaa,test=bbbbbbbb".into(),
+        "unix:abstract=/tmp/dbus-test".into(),
+        "unix:abstract=/tmp/dbus-test,guid=aaaaaaaa,test=bbbbbbbb".into(),
+        "".into(),
+        ":".into(),
+        "unix".into(),
+        "unix:".into(),
+        "unix:,".into(),
+        "unix:=".into(),
+        "unix:path".into(),
+        "unix:path=".into(),
+        "unix:abstract=".into(),
+        "unix:guid=1,path".into(),
+        "tcp:host=localhost,port=4".into(),
+        "unix:unix:path=/".into(),
+        "tcp:unix:path=/".into(),
+    ];
+    for e in &g.existing {
+        fixed.push(format!("unix:path={}", e));
+        fixed.push(format!("unix:guid=00ff,path={},abstract=zz", e));
+        fixed.push(format!("unix:abstract=zz,path={}", e));
+        fixed.push(format!("unix:runtime=yes,other=1,path={},path=/nonexistent", e));
+        fixed.push(format!("unix:path=/nonexistent/q,path={}", e));
+        fixed.push(format!("unix:novalue,path={}", e));
+        fixed.push(format!("unix:path={},novalue", e));
+    }
+    for a in &fixed {
+        addr_case(out, a, "addr_fixed");
+    }
+    let n = if cfg.thorough { 30000 } else { 3000 };
+    for _ in 0..n {
+        let a = g.address(rng);
+        addr_case(out, &a, "addr_grammar");
+        for _ in 0..3 {
+            let m = g.mutate(rng, &a);
+            addr_case(out, &m, "addr_mutated");
+        }
+    }
+    std::env::remove_var(ENV);
+    // system bus: fixed path
+    let ex = exists("/run/dbus/system_bus_socket");
+    let obs = show_addr(guard(get_system_bus_path));
+    let req = format!("c17.sys {}", if ex { 1 } else { 0 });
+    let want = if ex { format!("path {}", cps("/run/dbus/system_bus_socket")) } else { format!("err:missing {}", cps("/run/dbus/system_bus_socket")) };
+    if obs != want {
+        out.violation(&req, &format!("system bus path gave `{}`", obs));
+    }
+    out.case(&req, &obs, true);
+}
+
+// ---------------------------------------------------------------------------------------------
+// phase 3: handshakes
+// ---------------------------------------------------------------------------------------------
+
+#[derive(Clone, Copy, PartialEq, Debug)]
+enum Then {
+    /// go on with the next step
+    Continue,
+    /// close the socket after the chunks (only used when the chunks hold no complete line)
+    Close,
+    /// do not read the client's line, send the chunks and close with the line still unread: the client's
+    /// read fails with ECONNRESET (a read error event)
+    Reset,
+}
+
+#[derive(Clone, Debug)]
+struct Rep {
+    chunks: Vec<Vec<u8>>,
+    then: Then,
+}
+
+fn rep(chunks: Vec<Vec<u8>>) -> Rep {
+    let all: Vec<u8> = chunks.concat();
+    let then = if find_crlf(&all).is_some() { Then::Continue } else { Then::Close };
+    Rep { chunks, then }
+}
+
+fn find_crlf(b: &[u8]) -> Option<usize> {
+    b.windows(2).position(|w| w == b"\r\n")
+}
+
+/// model events for a server script: the chunks as written (pieces of at most 512 bytes, what one read
+/// can return), `x` for a reset, and `e` for the close at the end
+fn events(reps: &[Rep]) -> String {
+    let mut ev: Vec<String> = Vec::new();
+    let mut ended = false;
+    for r in reps {
+        for c in &r.chunks {
+            for piece in c.chunks(512) {
+                ev.push(format!("c{}", hex(piece)));
+            }
+        }
+        match r.then {
+            Then::Continue => {}
+            Then::Close => {
+                ev.push("e".into());
+                ended = true;
+                break;
+            }
+            Then::Reset => {
+                ev.push("x".into());
+                ended = true;
+                break;
+            }
+        }
+    }
+    if !ended {
+        ev.push("e".into());
+    }
+    ev.join(",")
+}
+
+fn pause() {
+    std::thread::sleep(Duration::from_micros(700));
+}
+
+fn read_line_partial(s: &mut UnixStream) -> Result<Vec<u8>, Vec<u8>> {
+    let mut line = Vec::new();
+    let mut b = [0u8; 1];
+    loop {
+        match s.read(&mut b) {
+            Ok(1) => {
+                line.push(b[0]);
+                if line.ends_with(b"\r\n") {
+                    return Ok(line);
+                }
+                if line.len() > 4096 {
+                    return Err(line);
+                }
+            }
+            _ => return Err(line),
+        }
+    }
+}
+
+fn peek_line(s: &UnixStream) -> Option<Vec<u8>> {
+    let t0 = Instant::now();
+    let mut buf = [0u8; 1024];
+    loop {
+        let n = unsafe { libc::recv(s.as_raw_fd(), buf.as_mut_ptr() as *mut libc::c_void, buf.len(), libc::MSG_PEEK | libc::MSG_DONTWAIT) };
+        if n > 0 {
+            if let Some(i) = find_crlf(&buf[..n as usize]) {
+                return Some(buf[..i + 2].to_vec());
+            }
+        } else if n == 0 {
+            return None;
+        }
+        if t0.elapsed() > Duration::from_millis(1500) {
+            return None;
+        }
+        std::thread::sleep(Duration::from_micros(200));
+    }
+}
+
+/// the scripted server. `expect_nul`: the first step is the auth step. Returns everything received.
+fn serve(mut s: UnixStream, reps: Vec<Rep>, expect_nul: bool, tail: bool, post_begin: Vec<u8>) -> Vec<u8> {
+    s.set_read_timeout(Some(Duration::from_millis(1500))).unwrap();
+    let mut trace = Vec::new();
+    if expect_nul {
+        let mut b = [0u8; 1];
+        match s.read(&mut b) {
+            Ok(1) => trace.push(b[0]),
+            _ => return trace,
+        }
+    }
+    for r in &reps {
+        if r.then == Then::Reset {
+            match peek_line(&s) {
+                Some(l) => trace.extend(l),
+                None => return trace,
+            }
+        } else {
+            match read_line_partial(&mut s) {
+                Ok(l) => trace.extend(l),
+                Err(p) => {
+                    trace.extend(p);
+                    return trace;
+                }
+            }
+        }
+        for c in &r.chunks {
+            if s.write_all(c).is_err() {
+                return trace;
+            }
+            let _ = s.flush();
+            pause();
+        }
+        if r.then != Then::Continue {
+            drop(s);
+            return trace;
+        }
+    }
+    if !tail {
+        return trace;
+    }
+    match read_line_partial(&mut s) {
+        Ok(l) => {
+            let is_begin = l == b"BEGIN\r\n";
+            trace.extend(l);
+            if is_begin {
+                let _ = s.write_all(&post_begin);
+                let mut rest = Vec::new();
+                let _ = s.read_to_end(&mut rest);
+                trace.extend(rest);
+            }
+        }
+        Err(p) => trace.extend(p),
+    }
+    trace
+}
+
+fn io_kind(e: &std::io::Error) -> &'static str {
+    match e.kind() {
+        std::io::ErrorKind::UnexpectedEof => "io:eof",
+        std::io::ErrorKind::InvalidData => "io:invalid",
+        _ => "io:other",
+    }
+}
+
+fn post_begin_message() -> Vec<u8> {
+    let mut msg = MessageBuilder::new().signal("io.verif.C17", "AfterBegin", "/io/verif").build();
+    msg.body.push_param(0x1122334455667788u64).unwrap();
+    msg.body.push_param("nothing was consumed").unwrap();
+    let mut bytes = Vec::new();
+    rustbus::wire::marshal::marshal(&msg, std::num::NonZeroU32::new(77).unwrap(), &mut bytes).unwrap();
+    bytes.extend_from_slice(msg.get_buf());
+    bytes
+}
+
+struct Hs<'a> {
+    out: &'a mut Out,
+    uid: u32,
+    hangs: u32,
+    post: Vec<u8>,
+}
+
+impl<'a> Hs<'a> {
+    fn give_up(&self) -> bool {
+        self.hangs >= 3
+    }
+
+    /// the property evaluated on what the server saw; `accepted[i]`: reply i (its first line) starts with
+    /// the keyword of step i. `steps` = the client lines expected in order.
+    fn direct(&mut self, req: &str, trace: &[u8], nul: bool, steps: &[Vec<u8>], first_lines: &[Option<Vec<u8>>], keywords: &[&[u8]], res: &str, success: &str) {
+        let mut body = trace;
+        if nul {
+            if trace.is_empty() {
+                if res == success {
+                    self.out.violation(req, "success although nothing was sent");
+                }
+                return;
+            }
+            if trace[0] != 0 {
+                self.out.violation(req, &format!("first byte is {:#x}, not NUL", trace[0]));
+                return;
+            }
+            body = &trace[1..];
+        }
+        // CRLF-terminated lines
+        let mut lines: Vec<Vec<u8>> = Vec::new();
+        let mut cur = body;
+        while !cur.is_empty() {
+            match find_crlf(cur) {
+                Some(i) => {
+                    lines.push(cur[..i + 2].to_vec());
+                    cur = &cur[i + 2..];
+                }
+                None => {
+                    self.out.violation(req, &format!("client sent an unterminated line {:?}", String::from_utf8_lossy(cur)));
+                    return;
+                }
+            }
+        }
+        if lines.len() > steps.len() || lines.iter().zip(steps.iter()).any(|(a, b)| a != b) {
+            self.out.violation(
+                req,
+                &format!(
+                    "client lines {:?} are not a prefix of the protocol {:?}",
+                    lines.iter().map(|l| String::from_utf8_lossy(l).to_string()).collect::<Vec<_>>(),
+                    steps.iter().map(|l| String::from_utf8_lossy(l).to_string()).collect::<Vec<_>>()
+                ),
+            );
+            return;
+        }
+        // line i+1 may only be sent after reply i was accepted
+        for i in 1..lines.len() {
+            let ok = match &first_lines.get(i - 1) {
+                Some(Some(l)) => l.starts_with(keywords[i - 1]) && std::str::from_utf8(l).is_ok(),
+                _ => false,
+            };
+            if !ok {
+                self.out.violation(
+                    req,
+                    &format!("{:?} was sent although the reply to the previous command was not accepted", String::from_utf8_lossy(&lines[i])),
+                );
+            }
+        }
+        if res == success {
+            let all_ok = (0..keywords.len()).all(|i| matches!(&first_lines.get(i), Some(Some(l)) if l.starts_with(keywords[i]) && std::str::from_utf8(l).is_ok()));
+            if !all_ok {
+                self.out.violation(req, "success reported without OK / AGREE_UNIX_FD");
+            }
+            if lines.len() != steps.len() {
+                self.out.violation(req, "success reported but not every command was sent");
+            }
+        } else if steps.last().map(|b| b.as_slice()) == Some(b"BEGIN\r\n".as_slice()) && lines.iter().any(|l| l == b"BEGIN\r\n") {
+            self.out.violation(req, &format!("BEGIN was sent although the result is {}", res));
+        }
+    }
+
+    /// `DuplexConn::connect_to_bus` against a listener served by `reps`
+    fn connect(&mut self, reps: Vec<Rep>, with_fd: bool, tag: &str, exact: bool) {
+        if self.give_up() {
+            return;
+        }
+        // the server plays exactly the steps this configuration has (then waits for BEGIN)
+        let reps: Vec<Rep> = reps.into_iter().take(if with_fd { 2 } else { 1 }).collect();
+        let req = format!("c17.conn {} {} - {}", self.uid, if with_fd { 1 } else { 0 }, events(&reps));
+        let name = peer::fresh_abstract_name();
+        let addr = SocketAddr::from_abstract_name(&name).unwrap();
+        let listener = UnixListener::bind_addr(&addr).unwrap();
+        let post = self.post.clone();
+        let reps2 = reps.clone();
+        let srv = std::thread::spawn(move || match accept_timeout(&listener, 2000) {
+            Some(s) => serve(s, reps2, true, true, post),
+            None => Vec::new(),
+        });
+        let (tx, rx) = mpsc::channel::<(String, Option<String>, Duration)>();
+        let name2 = name.clone();
+        std::thread::spawn(move || {
+            let t0 = Instant::now();
+            let uaddr = nix::sys::socket::UnixAddr::new_abstract(&name2).unwrap();
+            let r = guard(|| DuplexConn::connect_to_bus(uaddr, with_fd));
+            let el = t0.elapsed();
+            let (res, msg) = match r {
+                Err(p) => (format!("panic:{}", p), None),
+                Ok(Ok(mut conn)) => {
+                    // nothing of what follows BEGIN may have been consumed by the handshake
+                    let m = guard(|| conn.recv.get_next_message(Timeout::Duration(Duration::from_millis(1500))));
+                    let verdict = match m {
+                        Ok(Ok(m)) => {
+                            let mut p = m.body.parser();
+                            let a = p.get::<u64>().ok();
+                            let b = p.get::<&str>().ok().map(|s| s.to_string());
+                            if m.dynheader.member.as_deref() == Some("AfterBegin")
+                                && m.dynheader.serial.map(|s| s.get()) == Some(77)
+                                && a == Some(0x1122334455667788)
+                                && b.as_deref() == Some("nothing was consumed")
+                            {
+                                "intact".to_string()
+                            } else {
+                                format!("damaged: member {:?} params {:?} {:?}", m.dynheader.member, a, b)
+                            }
+                        }
+                        Ok(Err(e)) => format!("not received: {:?}", e),
+                        Err(p) => format!("panic: {}", p),
+                    };
+                    ("ok".to_string(), Some(verdict))
+                }
+                Ok(Err(ConnError::AuthFailed)) => ("authfailed".into(), None),
+                Ok(Err(ConnError::UnixFdNegotiationFailed)) => ("fdfailed".into(), None),
+                Ok(Err(ConnError::IoError(e))) => (io_kind(&e).into(), None),
+                Ok(Err(_)) => ("err:other".into(), None),
+            };
+            let _ = tx.send((res, msg, el));
+        });
+        let got = rx.recv_timeout(Duration::from_millis(2500));
+        let trace = srv.join().unwrap_or_default();
+        let hexuid: String = self.uid.to_string().bytes().map(|b| format!("{:02x}", b)).collect();
+        let mut steps: Vec<Vec<u8>> = vec![format!("AUTH EXTERNAL {}\r\n", hexuid).into_bytes()];
+        let mut keywords: Vec<&[u8]> = vec![b"OK"];
+        if with_fd {
+            steps.push(b"NEGOTIATE_UNIX_FD\r\n".to_vec());
+            keywords.push(b"AGREE_UNIX_FD");
+        }
+        steps.push(b"BEGIN\r\n".to_vec());
+        let res = match got {
+            Ok((res, msg, el)) => {
+                if el > Duration::from_millis(2000) {
+                    self.out.violation(&req, &format!("connect_to_bus took {:?}", el));
+                }
+                if res.starts_with("panic") {
+                    self.out.violation(&req, &format!("connect_to_bus panicked: {}", res));
+                }
+                if let Some(v) = msg {
+                    if v != "intact" {
+                        self.out.violation(&req, &format!("message sent right after BEGIN: {}", v));
+                    } else {
+                        self.out.hit("message_after_begin_intact");
+                    }
+                }
+                res
+            }
+            Err(_) => {
+                self.hangs += 1;
+                self.out.violation(&req, "connect_to_bus did not return within 2.5 s although the server closed or answered (hang)");
+                "hang".to_string()
+            }
+        };
+        if exact {
+            let first_lines = first_lines_of(&reps);
+            self.direct(&req, &trace, true, &steps, &first_lines, &keywords, &res, "ok");
+        } else {
+            // pipelined / loosely compared scripts: only the unconditional parts
+            let fl: Vec<Option<Vec<u8>>> = pipelined_lines(&reps);
+            self.direct(&req, &trace, true, &steps, &fl, &keywords, &res, "ok");
+        }
+        self.out.hit(tag);
+        self.out.hit(&format!("conn_{}", res.split(':').next().unwrap_or("")));
+        let r = if res.starts_with("panic") { "panic".to_string() } else { res };
+        self.out.case(&req, &format!("res={} trace={}", r, hex(&trace)), true);
+    }
+
+    /// one step function on a `UnixStream::pair()`; `which`: 0 = do_auth, 1 = negotiate_unix_fds
+    fn step(&mut self, which: u8, r: Option<Rep>, tag: &str) {
+        if self.give_up() {
+            return;
+        }
+        // `None`: the peer is already closed when the client starts (its first write fails)
+        let (mut client, server) = UnixStream::pair().unwrap();
+        let (req, reps) = match &r {
+            Some(r) => {
+                let ev = events(std::slice::from_ref(r));
+                (if which == 0 { format!("c17.auth {} - {}", self.uid, ev) } else { format!("c17.neg - {}", ev) }, vec![r.clone()])
+            }
+            None => (if which == 0 { format!("c17.auth {} 0 -", self.uid) } else { "c17.neg 0 -".to_string() }, vec![]),
+        };
+        let closed = r.is_none();
+        let reps2 = reps.clone();
+        let srv = std::thread::spawn(move || {
+            if closed {
+                drop(server);
+                Vec::new()
+            } else {
+                serve(server, reps2, which == 0, false, Vec::new())
+            }
+        });
+        let mut srv = Some(srv);
+        let mut pre_trace = None;
+        if closed {
+            pre_trace = Some(srv.take().unwrap().join().unwrap_or_default());
+        }
+        let (tx, rx) = mpsc::channel::<(String, Duration, UnixStream)>();
+        std::thread::spawn(move || {
+            let t0 = Instant::now();
+            let r = guard(|| if which == 0 { auth::do_auth(&mut client) } else { auth::negotiate_unix_fds(&mut client) });
+            let res = match r {
+                Err(p) => format!("panic:{}", p),
+                Ok(Ok(auth::AuthResult::Ok)) => "ok".into(),
+                Ok(Ok(auth::AuthResult::Rejected)) => "rejected".into(),
+                Ok(Err(e)) => io_kind(&e).into(),
+            };
+            let _ = tx.send((res, t0.elapsed(), client));
+        });
+        let got = rx.recv_timeout(Duration::from_millis(2500));
+        // keep the client end open until the server is done (it reads what the client wrote)
+        let trace = match pre_trace {
+            Some(t) => t,
+            None => srv.take().unwrap().join().unwrap_or_default(),
+        };
+        let hexuid: String = self.uid.to_string().bytes().map(|b| format!("{:02x}", b)).collect();
+        let steps: Vec<Vec<u8>> = if which == 0 { vec![format!("AUTH EXTERNAL {}\r\n", hexuid).into_bytes()] } else { vec![b"NEGOTIATE_UNIX_FD\r\n".to_vec()] };
+        let keywords: Vec<&[u8]> = if which == 0 { vec![b"OK"] } else { vec![b"AGREE_UNIX_FD"] };
+        let res = match got {
+            Ok((res, el, _client)) => {
+                if el > Duration::from_millis(2000) {
+                    self.out.violation(&req, &format!("step took {:?}", el));
+                }
+                if res.starts_with("panic") {
+                    self.out.violation(&req, &format!("step panicked: {}", res));
+                }
+                res
+            }
+            Err(_) => {
+                self.hangs += 1;
+                self.out.violation(&req, "the step function did not return within 2.5 s although the server closed or answered (hang)");
+                "hang".into()
+            }
+        };
+        if !closed {
+            let fl = first_lines_of(&reps);
+            self.direct(&req, &trace, which == 0, &steps, &fl, &keywords, &res, "ok");
+            // a rejection must be reported as such (not as success, not as an io error)
+            if let Some(Some(l)) = fl.first() {
+                let want = if std::str::from_utf8(l).is_err() { "io:invalid" } else if l.starts_with(keywords[0]) { "ok" } else { "rejected" };
+                if res != want {
+                    self.out.violation(&req, &format!("reply line {:?} gave {}, expected {}", String::from_utf8_lossy(l), res, want));
+                }
+            }
+        } else if res != "io:other" {
+            self.out.violation(&req, &format!("writing to a closed peer gave {}", res));
+        }
+        self.out.hit(tag);
+        self.out.hit(&format!("step{}_{}", which, res.split(':').next().unwrap_or("")));
+        let r = if res.starts_with("panic") { "panic".to_string() } else { res };
+        self.out.case(&req, &format!("res={} trace={}", r, hex(&trace)), true);
+    }
+
+    fn begin(&mut self, peer_open: bool) {
+        let (mut client, mut server) = UnixStream::pair().unwrap();
+        let req = if peer_open { "c17.begin -".to_string() } else { "c17.begin 0".to_string() };
+        let mut trace = Vec::new();
+        if !peer_open {
+            drop(server);
+            let r = guard(|| auth::send_begin(&mut client));
+            let res = match r {
+                Err(_) => "panic",
+                Ok(Ok(())) => "ok",
+                Ok(Err(_)) => "io:other",
+            };
+            if res != "io:other" {
+                self.out.violation(&req, &format!("send_begin to a closed peer gave {}", res));
+            }
+            self.out.case(&req, &format!("res={} trace=-", res), true);
+        } else {
+            let r = guard(|| auth::send_begin(&mut client));
+            drop(client);
+            let _ = server.read_to_end(&mut trace);
+            let res = match r {
+                Err(_) => "panic",
+                Ok(Ok(())) => "ok",
+                Ok(Err(_)) => "io:other",
+            };
+            if res != "ok" || trace != b"BEGIN\r\n" {
+                self.out.violation(&req, &format!("send_begin gave {} and the peer received {:?}", res, String::from_utf8_lossy(&trace)));
+            }
+            self.out.case(&req, &format!("res={} trace={}", res, hex(&trace)), true);
+        }
+        self.out.hit("begin");
+    }
+}
+
+/// for scripts in the exact class: the line the client gets for reply i = the bytes of reply i up to its first CRLF
+fn first_lines_of(reps: &[Rep]) -> Vec<Option<Vec<u8>>> {
+    reps.iter()
+        .map(|r| {
+            let all = r.chunks.concat();
+            find_crlf(&all).map(|i| all[..i].to_vec())
+        })
+        .collect()
+}
+
+/// for pipelined scripts the client only ever sees the first line of each reply write as well
+fn pipelined_lines(reps: &[Rep]) -> Vec<Option<Vec<u8>>> {
+    first_lines_of(reps)
+}
+
+fn split_at_points(b: &[u8], points: &[usize]) -> Vec<Vec<u8>> {
+    let mut out = Vec::new();
+    let mut last = 0;
+    for &p in points {
+        if p > last && p < b.len() {
+            out.push(b[last..p].to_vec());
+            last = p;
+        }
+    }
+    out.push(b[last..].to_vec());
+    out.retain(|c| !c.is_empty());
+    out
+}
+
+fn random_chunking(rng: &mut Prng, b: &[u8]) -> Vec<Vec<u8>> {
+    if b.len() < 2 {
+        return vec![b.to_vec()];
+    }
+    let mode = rng.below(4);
+    let mut points: Vec<usize> = Vec::new();
+    match mode {
+        0 => {}
+        1 => points.push(rng.range(1, b.len() as u64 - 1) as usize),
+        2 => {
+            // split inside / around the CRLF
+            if let Some(i) = find_crlf(b) {
+                for p in [i, i + 1] {
+                    if rng.chance(1, 2) {
+                        points.push(p);
+                    }
+                }
+            }
+        }
+        _ => {
+            let k = rng.range(1, 6.min(b.len() as u64 - 1));
+            for _ in 0..k {
+                points.push(rng.range(1, b.len() as u64 - 1) as usize);
+            }
+            points.sort();
+            points.dedup();
+        }
+    }
+    split_at_points(b, &points)
+}
+
+fn line(s: &[u8]) -> Vec<u8> {
+    let mut v = s.to_vec();
+    v.extend(b"\r\n");
+    v
+}
+
+fn classes1() -> Vec<(&'static str, Vec<u8>)> {
+    let mut v: Vec<(&'static str, Vec<u8>)> = vec![
+        ("ok", b"OK".to_vec()),
+        ("ok_guid", b"OK 1234deadbeef00112233445566778899".to_vec()),
+        ("okay", b"OKAY".to_vec()),
+        ("ok_tab", b"OK\tx".to_vec()),
+        ("ok_lower", b"ok 1234".to_vec()),
+        ("ok_space_before", b" OK 1234".to_vec()),
+        ("o", b"O".to_vec()),
+        ("ko", b"KO".to_vec()),
+        ("empty", b"".to_vec()),
+        ("rejected", b"REJECTED EXTERNAL DBUS_COOKIE_SHA1 ANONYMOUS".to_vec()),
+        ("rejected_bare", b"REJECTED".to_vec()),
+        ("error", b"ERROR".to_vec()),
+        ("error_msg", b"ERROR \"unknown command\"".to_vec()),
+        ("data", b"DATA 3031".to_vec()),
+        ("agree_instead", b"AGREE_UNIX_FD".to_vec()),
+        ("garbage", b"\x01\x02~}{ lorem ipsum \x7f".to_vec()),
+        ("ok_lone_cr", b"OK\rabc".to_vec()),
+        ("ok_lone_lf", b"OK\nabc".to_vec()),
+        ("lf_only_then_ok", b"REJECTED\nOK".to_vec()),
+        ("ok_trailing_cr", b"OK 12\r".to_vec()),
+        ("non_utf8_ff", b"OK \xff\xfe".to_vec()),
+        ("non_utf8_trunc", b"OK \xe2\x82".to_vec()),
+        ("non_utf8_overlong", b"\xc0\xafOK".to_vec()),
+        ("non_utf8_surrogate", b"OK \xed\xa0\x80".to_vec()),
+        ("non_utf8_rejected", b"REJECTED \x80".to_vec()),
+        ("utf8_ok", "OK \u{e4}\u{20ac}\u{1f600}".as_bytes().to_vec()),
+        ("utf8_not_ok", "\u{e4}OK".as_bytes().to_vec()),
+        ("nul_bytes", b"OK\0\0".to_vec()),
+    ];
+    for n in [509usize, 510, 511, 512, 513, 1022, 1500] {
+        let mut l = b"OK ".to_vec();
+        l.extend(std::iter::repeat(b'a').take(n - 3));
+        v.push(("ok_long", l));
+    }
+    let mut l = b"REJECTED ".to_vec();
+    l.extend(std::iter::repeat(b'z').take(700));
+    v.push(("rejected_long", l));
+    v
+}
+
+fn classes2() -> Vec<(&'static str, Vec<u8>)> {
+    vec![
+        ("agree", b"AGREE_UNIX_FD".to_vec()),
+        ("agree_more", b"AGREE_UNIX_FD yes".to_vec()),
+        ("agree_glued", b"AGREE_UNIX_FDS".to_vec()),
+        ("agree_short", b"AGREE_UNIX_F".to_vec()),
+        ("agree_lower", b"agree_unix_fd".to_vec()),
+        ("agree_space", b" AGREE_UNIX_FD".to_vec()),
+        ("error", b"ERROR".to_vec()),
+        ("error_msg", b"ERROR \"not supported\"".to_vec()),
+        ("ok", b"OK".to_vec()),
+        ("rejected", b"REJECTED EXTERNAL".to_vec()),
+        ("empty", b"".to_vec()),
+        ("non_utf8", b"AGREE_UNIX_FD \xff".to_vec()),
+        ("non_utf8_2", b"\xf8AGREE_UNIX_FD".to_vec()),
+        ("garbage", b"%%%%%%%%%%%%%%%%%%%%%%%".to_vec()),
+        ("utf8", "AGREE_UNIX_FD \u{2713}".as_bytes().to_vec()),
+    ]
+}
+
+fn all_compositions(b: &[u8]) -> Vec<Vec<Vec<u8>>> {
+    let n = b.len();
+    let mut out = Vec::new();
+    for mask in 0u32..(1 << (n - 1)) {
+        let points: Vec<usize> = (1..n).filter(|i| mask & (1 << (i - 1)) != 0).collect();
+        out.push(split_at_points(b, &points));
+    }
+    out
+}
+
+fn handshake_phase(out: &mut Out, rng: &mut Prng, cfg: &Cfg) {
+    let uid = unsafe { libc::getuid() };
+    let mut hs = Hs { out, uid, hangs: 0, post: post_begin_message() };
+    let c1 = classes1();
+    let c2 = classes2();
+    let ok = || rep(vec![line(b"OK 1234deadbeef")]);
+    let agree = || rep(vec![line(b"AGREE_UNIX_FD")]);
+
+    // 1. every reply class at step 1, both configurations
+    for (_, l) in &c1 {
+        for fd in [false, true] {
+            hs.connect(vec![rep(vec![line(l)]), agree()], fd, "conn_class1", true);
+        }
+    }
+    // 2. every reply class at step 2
+    for (_, l) in &c2 {
+        hs.connect(vec![ok(), rep(vec![line(l)])], true, "conn_class2", true);
+    }
+    // 3. close after k bytes, for every k, at each step (k = whole reply is racy for connect_to_bus: the
+    //    client's next write may or may not see the close; it is done deterministically on the step functions)
+    let mut close_lines: Vec<Vec<u8>> = vec![line(b"OK 1234"), line(b"REJECTED EXTERNAL")];
+    if cfg.thorough {
+        close_lines.push(line(b"OK 1234deadbeef00112233445566778899"));
+        close_lines.push(line(b"ERROR \"x\""));
+    }
+    for l in &close_lines {
+        for k in 0..l.len() {
+            for fd in [false, true] {
+                let chunks = if k == 0 { vec![] } else { vec![l[..k].to_vec()] };
+                hs.connect(vec![Rep { chunks, then: Then::Close }], fd, "conn_close_after_k_step1", true);
+            }
+        }
+    }
+    for l in [line(b"AGREE_UNIX_FD"), line(b"ERROR")] {
+        for k in 0..l.len() {
+            let chunks = if k == 0 { vec![] } else { vec![l[..k].to_vec()] };
+            hs.connect(vec![ok(), Rep { chunks, then: Then::Close }], true, "conn_close_after_k_step2", true);
+        }
+    }
+    // close after k bytes with the k bytes in two chunks
+    for k in 2..7usize {
+        let l = line(b"OK 1234");
+        hs.connect(vec![Rep { chunks: vec![l[..1].to_vec(), l[1..k].to_vec()], then: Then::Close }], false, "conn_close_after_k_step1", true);
+    }
+    // 4. chunkings
+    for comp in all_compositions(&line(b"OK")) {
+        for fd in [false, true] {
+            hs.connect(vec![rep(comp.clone()), agree()], fd, "conn_all_chunkings", true);
+        }
+    }
+    if cfg.thorough {
+        for comp in all_compositions(&line(b"OK 12")) {
+            hs.connect(vec![rep(comp.clone()), agree()], false, "conn_all_chunkings", true);
+        }
+        for comp in all_compositions(&line(b"ERROR")) {
+            hs.connect(vec![rep(comp.clone()), agree()], true, "conn_all_chunkings", true);
+        }
+    }
+    for l in [line(b"OK 1234deadbeef"), line(b"REJECTED EXTERNAL")] {
+        for p in 1..l.len() {
+            hs.connect(vec![rep(split_at_points(&l, &[p])), agree()], true, "conn_two_chunks", true);
+        }
+    }
+    {
+        let l = line(b"AGREE_UNIX_FD");
+        for p in 1..l.len() {
+            hs.connect(vec![ok(), rep(split_at_points(&l, &[p]))], true, "conn_two_chunks", true);
+        }
+        // byte by byte
+        let bytewise: Vec<Vec<u8>> = l.iter().map(|b| vec![*b]).collect();
+        hs.connect(vec![rep(line(b"OK 12").iter().map(|b| vec![*b]).collect()), rep(bytewise)], true, "conn_bytewise", true);
+    }
+    // long lines in 100 byte chunks
+    for n in [511usize, 512, 513, 1500] {
+        let mut l = b"OK ".to_vec();
+        l.extend(std::iter::repeat(b'q').take(n - 3));
+        let l = line(&l);
+        let chunks: Vec<Vec<u8>> = l.chunks(100).map(|c| c.to_vec()).collect();
+        hs.connect(vec![rep(chunks), agree()], true, "conn_long_chunked", true);
+    }
+    // 5. bytes behind the CRLF in the same write are dropped; pipelined replies
+    hs.connect(vec![rep(vec![b"OK 1\r\nXYZ".to_vec()]), agree()], true, "conn_extra_dropped", true);
+    hs.connect(vec![rep(vec![b"OK 1\r".to_vec(), b"\nXYZ".to_vec()]), agree()], true, "conn_extra_dropped", true);
+    hs.connect(vec![rep(vec![b"REJECTED\r\nOK\r\n".to_vec()])], false, "conn_extra_dropped", true);
+    hs.connect(vec![rep(vec![b"OK\r\nAGREE_UNIX_FD\r\n".to_vec()])], true, "conn_pipelined", false);
+    hs.connect(vec![rep(vec![b"OK\r\nAGREE_UNIX_FD\r\n".to_vec()])], false, "conn_pipelined", false);
+    hs.connect(vec![rep(vec![b"OK\r\nERROR\r\n".to_vec()])], true, "conn_pipelined", false);
+    // 6. reset (read error) at each step
+    hs.connect(vec![Rep { chunks: vec![], then: Then::Reset }], false, "conn_reset", true);
+    hs.connect(vec![Rep { chunks: vec![b"OK".to_vec()], then: Then::Reset }], true, "conn_reset", true);
+    hs.connect(vec![ok(), Rep { chunks: vec![], then: Then::Reset }], true, "conn_reset", true);
+    hs.connect(vec![ok(), Rep { chunks: vec![b"AGREE_".to_vec()], then: Then::Reset }], true, "conn_reset", true);
+    // a server that answers OK and then nothing more: closes when it gets NEGOTIATE_UNIX_FD
+    hs.connect(vec![ok()], true, "conn_script_ends", true);
+    hs.connect(vec![ok()], false, "conn_script_ends", true);
+    // 7. random scripts
+    let n = if cfg.thorough { 2500 } else { 150 };
+    for _ in 0..n {
+        let fd = rng.chance(1, 2);
+        let l1 = if rng.chance(1, 2) { rng.pick(&c1).1.clone() } else if rng.chance(2, 3) { b"OK abcdef".to_vec() } else { random_line(rng) };
+        let l2 = if rng.chance(1, 2) { rng.pick(&c2).1.clone() } else if rng.chance(2, 3) { b"AGREE_UNIX_FD".to_vec() } else { random_line(rng) };
+        let mut reps = Vec::new();
+        for l in [l1, l2] {
+            let full = line(&l);
+            match rng.below(8) {
+                0 => {
+                    // close inside the reply (before its first CRLF is complete)
+                    let first = find_crlf(&full).unwrap() + 1;
+                    let k = rng.below(first as u64 + 1) as usize;
+                    let chunks = if k == 0 { vec![] } else { random_chunking(rng, &full[..k]) };
+                    reps.push(Rep { chunks, then: Then::Close });
+                    break;
+                }
+                1 if full.len() <= 400 => {
+                    // extra bytes in the write that carries the end of the CRLF. Only for replies that
+                    // fit one 512 byte read: then whichever read returns the '\n' also returns the extra
+                    // bytes and they are dropped. (For longer replies they can spill into the next read and
+                    // end up in the message stream - servers that send bytes beyond the line are outside
+                    // the property.)
+                    let mut chunks = random_chunking(rng, &full);
+                    let extra = random_line(rng);
+                    chunks.last_mut().unwrap().extend(extra);
+                    reps.push(Rep { chunks, then: Then::Continue });
+                }
+                _ => reps.push(rep(random_chunking(rng, &full))),
+            }
+        }
+        // only scripts in which no write follows a complete line within the same reply
+        hs.connect(reps, fd, "conn_random", true);
+    }
+    // 8. the step functions on a socket pair
+    for (_, l) in &c1 {
+        let full = line(l);
+        hs.step(0, Some(rep(random_chunking(rng, &full))), "step_auth_class");
+    }
+    for (_, l) in &c2 {
+        let full = line(l);
+        hs.step(1, Some(rep(random_chunking(rng, &full))), "step_neg_class");
+    }
+    for (which, l) in [(0u8, line(b"OK 99")), (1u8, line(b"AGREE_UNIX_FD"))] {
+        for k in 0..l.len() {
+            let chunks = if k == 0 { vec![] } else { vec![l[..k].to_vec()] };
+            hs.step(which, Some(Rep { chunks, then: Then::Close }), "step_close_after_k");
+        }
+        hs.step(which, Some(Rep { chunks: vec![], then: Then::Reset }), "step_reset");
+        hs.step(which, Some(Rep { chunks: vec![l[..2].to_vec()], then: Then::Reset }), "step_reset");
+        hs.step(which, None, "step_peer_closed");
+    }
+    hs.begin(true);
+    hs.begin(false);
+    if hs.give_up() {
+        hs.out.hit("handshake_phase_cut_short_after_3_hangs");
+    }
+    // connecting to a name nobody listens on: an error, quickly
+    let t0 = Instant::now();
+    let uaddr = nix::sys::socket::UnixAddr::new_abstract(&peer::fresh_abstract_name()).unwrap();
+    let r = guard(|| DuplexConn::connect_to_bus(uaddr, false));
+    if !matches!(r, Ok(Err(_))) || t0.elapsed() > Duration::from_millis(2000) {
+        hs.out.violation("connect to an unbound name", "expected a prompt error");
+    }
+    hs.out.hit("conn_unbound_name");
+}
+
+fn random_line(rng: &mut Prng) -> Vec<u8> {
+    // arbitrary bytes without CRLF (lone CR / LF allowed)
+    let n = rng.range(0, 24);
+    let mut v: Vec<u8> = Vec::new();
+    for _ in 0..n {
+        let b = match rng.below(8) {
+            0 => *rng.pick(&[b'\r', b'\n', 0u8, 0xff, 0x80, 0xc3, 0xa4, b'O', b'K']),
+            1 => rng.below(256) as u8,
+            _ => rng.range(0x20, 0x7e) as u8,
+        };
+        if b == b'\n' && v.last() == Some(&b'\r') {
+            continue;
+        }
+        v.push(b);
+    }
+    if rng.chance(1, 3) {
+        let mut w = if rng.chance(1, 2) { b"OK".to_vec() } else { b"AGREE_UNIX_FD".to_vec() };
+        w.extend(v);
+        v = w;
+    }
+    v
+}
 
 pub fn run(cfg: &Cfg) {
-    let out = Out::new(&cfg.outdir);
-    out.finish("stub", false);
+    let mut out = Out::new(&cfg.outdir);
+    let mut rng = Prng::new(cfg.seed);
+    // single-threaded phases first (fork, set_var)
+    uid_phase(&mut out, &mut rng, cfg);
+    std::panic::set_hook(Box::new(|_| {}));
+    addr_phase(&mut out, &mut rng, cfg);
+    handshake_phase(&mut out, &mut rng, cfg);
+    out.finish(
+        "uids: forked children setresuid to boundary and random uids (uniform over the digit count) and run the real connect_to_bus, the parent's server records the AUTH line; addresses: fixed strings + grammar (system x 0..7 key=value pairs with keys path/abstract/guid/runtime/other/misspelt, values existing files, missing files, directories, long names around the 108 byte limit, unicode, empty, missing '=', missing ':', extra commas) and three single character mutations of each, through get_session_bus_path under a controlled environment, compared with an independent parser; handshakes: connect_to_bus against a scripted listener and do_auth / negotiate_unix_fds / send_begin on a socket pair: every reply class at each step x with/without fd negotiation, close after k bytes for every k, all chunkings of short lines, every two-chunk split, byte-wise, long lines, bytes behind the CRLF, pipelined replies, reset with unread data, closed peer, random scripts; distinct by request; non-trivial = everything except duplicate requests",
+        false,
+    );
 }
